@@ -335,3 +335,59 @@ pub fn membership_forwarded(dist: usize, poll: usize, change: &datacake_node::Me
         )
     });
 }
+
+/// A one-shot pause inside the `GetState` handler, between its two questions to the
+/// keyspace actor (change stamp, serialized state), so that a harness can let other
+/// requests reach the actor in between - deterministically instead of by racing.
+pub struct GetStatePause {
+    reached: std::sync::Arc<tokio::sync::Notify>,
+    release: std::sync::Arc<tokio::sync::Notify>,
+}
+
+type ArmedPause = (
+    String,
+    std::sync::Arc<tokio::sync::Notify>,
+    std::sync::Arc<tokio::sync::Notify>,
+);
+static GETSTATE_PAUSE: std::sync::Mutex<Option<ArmedPause>> = std::sync::Mutex::new(None);
+
+/// Arms the pause for the next `GetState` request for `keyspace` handled in this process.
+pub fn arm_getstate_pause(keyspace: &str) -> GetStatePause {
+    let pause = GetStatePause {
+        reached: Default::default(),
+        release: Default::default(),
+    };
+    *GETSTATE_PAUSE.lock().unwrap() = Some((
+        keyspace.to_string(),
+        pause.reached.clone(),
+        pause.release.clone(),
+    ));
+    pause
+}
+
+impl GetStatePause {
+    /// Resolves once a handler is waiting at the pause.
+    pub async fn reached(&self) {
+        self.reached.notified().await
+    }
+
+    /// Lets the handler go on (also disarms a pause nobody reached).
+    pub fn release(&self) {
+        *GETSTATE_PAUSE.lock().unwrap() = None;
+        self.release.notify_one();
+    }
+}
+
+pub(crate) async fn getstate_pause(keyspace: &str) {
+    let armed = {
+        let mut lock = GETSTATE_PAUSE.lock().unwrap();
+        match lock.as_ref() {
+            Some((ks, _, _)) if ks == keyspace => lock.take(),
+            _ => None,
+        }
+    };
+    if let Some((_, reached, release)) = armed {
+        reached.notify_one();
+        release.notified().await;
+    }
+}
